@@ -531,7 +531,39 @@ func (g *gen) scenario() int {
 		g.buildFull()
 	}
 	before := len(g.ops)
-	switch g.r.Intn(11) {
+	switch g.r.Intn(12) {
+	case 11: // textually identical file sets under the same local name in two packages (absolute-only
+		// dependencies), built in different subsets and orders
+		if len(g.rules) < 8 && len(g.repos) >= 2 {
+			g.nextRule++
+			a := fmt.Sprintf("%s/t%d", g.repos[0], g.nextRule)
+			b := fmt.Sprintf("%s/t%d", g.repos[1], g.nextRule)
+			var files, incs []string
+			if len(g.repos) == 3 {
+				for _, n := range g.srcNames() {
+					if repoOf(n) == g.repos[2] && len(files) < 2 {
+						files = append(files, n)
+					}
+				}
+			}
+			for _, r := range g.rules {
+				if r.kind == "fs" && !strings.HasSuffix(r.name, ".txt") && len(incs) < 1 && g.r.Bool() {
+					incs = append(incs, r.name)
+				}
+			}
+			rs := cloneRules(g.rules)
+			rs = append(rs, &ruleDef{kind: "fs", name: a, files: files, incs: incs},
+				&ruleDef{kind: "fs", name: b, files: files, incs: incs})
+			g.setRules(rs)
+			first, second := a, b
+			if g.r.Bool() {
+				first, second = b, a
+			}
+			g.emit("build always=0 %s", first)
+			g.emit("build always=0 %s %s", second, first)
+			g.buildFull()
+			g.rep.Count("gen:scenario-identical-rule-bodies")
+		}
 	case 9: // a rule changes its kind (file_set -> bundle -> file_set) while a dependant keeps including it
 		var fsi []int
 		for i, r := range g.rules {
@@ -721,6 +753,9 @@ func (g *gen) scenario() int {
 
 func (g *gen) history(maxOps int) []string {
 	g.ops = []string{"ws"}
+	if g.r.Bool() {
+		g.ops = []string{"ws reuse=1"}
+	}
 	g.repos = repos[:2+g.r.Intn(2)]
 	g.src = map[string]sstat{}
 	g.srcHist = map[string][]sstat{}
